@@ -98,6 +98,7 @@ Asts == CASE U = "mc1" -> MCDepth1(U) [] U = "mc2q" -> MCDepth2q(U) [] U = "mc2"
           [] U = "filter" -> FilterAsts(U)
           [] U = "ex1" -> ExDepth1(U) [] U = "ex2q" -> ExDepth2q(U) [] U = "ex2" -> ExDepth2(U) [] U = "ex3" -> ExDepth3(U)
 Flows == CASE F = "one" -> {<<V3>>, <<V2>>}
+           [] F = "tiny" -> SeqsUpTo({V2, V3, V4}, 3)
            [] F = "small" -> SeqsUpTo({V2, V3, V4, V6}, 3)
            [] F = "big" -> SeqsUpTo({V1, V2, V3, V4, V6, V8}, 4)
 
@@ -232,9 +233,11 @@ StackBound == Len(stack) <= 8
 XInit == /\ ast \in Asts /\ flow = AllVals
          /\ pos = 0 /\ out = <<>> /\ results = <<>> /\ status = "idle" /\ stack = <<>> /\ ctl = CNone
 XSpec == XInit /\ [][FALSE]_vars
-EmitVec == PrintT(ToJson([ast |-> ast, res |-> [j \in 1..Len(AllVals) |-> Eval(ast, AllVals[j])]]))
+\* (the eight values themselves are attached to the record of one specification)
+FirstAst == CHOOSE a \in Asts : TRUE
+EmitVec == PrintT(ToJson([ast |-> ast, res |-> [j \in 1..Len(AllVals) |-> Eval(ast, AllVals[j])],
+                          vals |-> IF ast = FirstAst THEN AllVals ELSE <<>>]))
 \* Filter behaviours: the machine's output
 EmitFilter == status \in {"done", "raised"} =>
                 PrintT(ToJson([ast |-> ast, flow |-> flow, out |-> out, raised |-> (status = "raised")]))
-EmitVals(u) == PrintT(ToJson([vals |-> AllVals]))
 =============================================================================
